@@ -35,7 +35,7 @@ SLOW = {"repeat", "range", "until", "while", "recurse", "limit", "combinations",
 
 
 # targeted cells for the text codecs of Formats.tla: (input, arguments) pools per family
-TEXTS = ["", "a b+c%2F~-_.", "%zz", "%", "%4", "%41%C3%A9", "%ff", "a+b", "YQ==", "YWI", "YWJj\n", "Y", "YQ", "!!", "YW=Jj", "w6k=", "/+8=", "<a href='x'>&\"", "a\tb\\c\r\n", "it's", "\u0000x", "日本 語", "é",
+TEXTS = ["[1]]", "1]", "{\"a\":[1]}}", "null}", "[1],", "[1] ]", "1 }", "\"a\"]", "[[1]]]", "{}}", "true]", "[1]:", "{\"a\":1},", "", "a b+c%2F~-_.", "%zz", "%", "%4", "%41%C3%A9", "%ff", "a+b", "YQ==", "YWI", "YWJj\n", "Y", "YQ", "!!", "YW=Jj", "w6k=", "/+8=", "<a href='x'>&\"", "a\tb\\c\r\n", "it's", "\u0000x", "日本 語", "é",
          "{\"a\":[1,2.5,\"x\\u00e9\\ud83d\\ude00\"],\"b\":null}", "[1,]", "01", "1e2", " [ ] ", "\"\\ud800\"", "\"\\ud800\\u0041\"", "nul", "{\"a\":1,\"a\":2}", "[1] x", "-", "1.", "-0", "[1,[2,{\"k\":[]}]]", "\"a\nb\"",
          "\"\\q\"", "{\"a\" 1}", "{a:1}", "tru", "true ", "1E3", "0.25", "123456789012345678901234567890", "[\"\\u00zz\"]", "\t\n 7 \r", "abcabca", "aaa", "a,b,,c", "AbaB"]
 EPOCHS = [-1.5, -0.5, -86400.25, -0.25, 1.5, 0.5, -1, -86401, 86399.75, 1425599621, -62135596800, 253402300799, 1e12, -2.5e9, [1970, 0, 1, 0, 0, -1.5], [2015, 2, 5, 23, 51, 47.5, 4, 63], [2024, 13, 32, 25, 61, 61], [2020],
@@ -116,7 +116,7 @@ def run(tier, seed, replay):
                     ins.append({"t": "arr", "a": [jqgen.V(big)] + [r.choice(sub) for _ in range(ar)]})
                     ins.append({"t": "arr", "a": [jqgen.V(big)] + [jqgen.V(x) for x in (["-", None, 0] if name == "join" else [0, None, "k"])][:ar]})
             if name in TEXT_NATIVES and ar == 0:
-                ins += [{"t": "arr", "a": [jqgen.V(t)]} for t in (TEXTS if not quick else r.sample(TEXTS, 20))]
+                ins += [{"t": "arr", "a": [jqgen.V(t)]} for t in (TEXTS if not quick else TEXTS[:13] + r.sample(TEXTS[13:], 20))]
             if name in ("gmtime", "mktime", "todate", "todateiso8601", "dateadd", "datesub", "date", "strftime", "localtime", "strflocaltime"):
                 for e in EPOCHS:
                     ins.append({"t": "arr", "a": [jqgen.V(e)] + [jqgen.V(r.choice(TIMEFMTS)) for _ in range(ar)]})
